@@ -177,20 +177,41 @@ func (w *World) registerTimeIntrinsics() {
 	// ---- context ----
 	ctxVal := func(e *Exec) Value {
 		t := e.errorsPkgType("context", "backgroundCtx")
-		return &IfaceVal{typ: t, val: &OpaqueVal{name: "ctx"}}
+		return &IfaceVal{typ: t, val: &OpaqueVal{name: "ctx", data: &ctxState{}}}
+	}
+	timedCtx := func(e *Exec, fn *ssa.Function, a []Value) Value {
+		t := e.errorsPkgType("context", "backgroundCtx")
+		return tuple(&IfaceVal{typ: t, val: &OpaqueVal{name: "ctx", data: &ctxState{timed: true}}}, &FuncVal{builtin: "verif:noop"})
+	}
+	// verifHang(ctx): a peer that never answers.  A context with a deadline expires (Err() is
+	// non-nil from then on) and its error comes back; without a deadline the wait ends in a
+	// plain transport error
+	I["@verifHang"] = func(e *Exec, fn *ssa.Function, a []Value) Value {
+		if iv, ok := a[0].(*IfaceVal); ok {
+			if ov, ok := iv.val.(*OpaqueVal); ok && ov.name == "ctx" {
+				if st, ok := ov.data.(*ctxState); ok && st.timed {
+					st.expired = true
+					return e.newError("context deadline exceeded")
+				}
+			}
+		}
+		return e.newError("verif: no answer")
 	}
 	I["context.Background"] = func(e *Exec, fn *ssa.Function, a []Value) Value { return ctxVal(e) }
 	I["context.TODO"] = func(e *Exec, fn *ssa.Function, a []Value) Value { return ctxVal(e) }
 	withCancel := func(e *Exec, fn *ssa.Function, a []Value) Value {
 		return tuple(ctxVal(e), &FuncVal{builtin: "verif:noop"})
 	}
-	I["context.WithTimeout"] = withCancel
+	I["context.WithTimeout"] = timedCtx
 	I["context.WithCancel"] = withCancel
-	I["context.WithDeadline"] = withCancel
+	I["context.WithDeadline"] = timedCtx
 	I["context.WithValue"] = func(e *Exec, fn *ssa.Function, a []Value) Value { return a[0] }
 	I["(*net/http.Request).Context"] = func(e *Exec, fn *ssa.Function, a []Value) Value { return ctxVal(e) }
 	I["(*net/http.Request).WithContext"] = func(e *Exec, fn *ssa.Function, a []Value) Value { return a[0] }
 }
+
+// ctxState: whether a context has a deadline, and whether a hanging callee let it run out
+type ctxState struct{ timed, expired bool }
 
 // opaque method calls (contexts)
 func (w *World) opaqueMethodImpl(ov *OpaqueVal, name string) opaqueMethodFn {
@@ -218,7 +239,12 @@ func (w *World) opaqueMethodImpl(ov *OpaqueVal, name string) opaqueMethodFn {
 		case "Done":
 			return func(e *Exec, ov *OpaqueVal, args []Value) Value { return &OpaqueVal{name: "ctx.Done"} }
 		case "Err":
-			return func(e *Exec, ov *OpaqueVal, args []Value) Value { return nilIface }
+			return func(e *Exec, ov *OpaqueVal, args []Value) Value {
+				if st, ok := ov.data.(*ctxState); ok && st.expired {
+					return e.newError("context deadline exceeded")
+				}
+				return nilIface
+			}
 		case "Value":
 			return func(e *Exec, ov *OpaqueVal, args []Value) Value { return nilIface }
 		case "Deadline":
